@@ -48,6 +48,12 @@ def run(ctx):
                     stim.append({"t": len(stim) + 1, "qcap": qc, "steps": steps})
     if not stim:
         raise vf.Machinery("no behaviours generated")
+    # directed histories with overlapping (non-LIFO) handlers that call back, predicted by the model (queue capacity 2)
+    directed = json.load(open(os.path.join(g.dir, "directed.json")))
+    for steps in directed:
+        for rep in range(6 if thorough else 3):
+            stim.append({"t": len(stim) + 1, "qcap": 2, "steps": steps})
+    ctx.cov["directed_histories"] = len(directed)
     spath = os.path.join(ctx.work, "stimuli.ndjson")
     vf.write_ndjson(spath, stim)
     out = os.path.join(ctx.work, "traces.ndjson")
